@@ -54,4 +54,11 @@ pub fn t52() -> i64 { [1usize, 5, 2].iter().fold(0usize, |a, b| a.max(*b)) as i6
 pub fn t53() -> i64 { Some(3usize).filter(|x| *x > 5).map_or(7, |x| x as i64) + Some(9usize).filter(|x| *x > 5).map_or(7, |x| x as i64) * 10 + Some('a').is_some_and(|c| c.is_ascii_alphabetic()) as i64 * 100 }
 pub fn t54() -> i64 { let mut v = vec![(2usize, "b"), (1, "a"), (2, "a")]; v.sort_by(|x, y| x.0.cmp(&y.0)); (v[0].0 * 100 + v[1].0 * 10) as i64 + (v[1].1 == "b") as i64 }
 pub fn t55() -> i64 { "a--b".trim_start_matches('a').len() as i64 * 10 + "x==".trim_end_matches('=').len() as i64 + "a\nb".matches('\n').count() as i64 * 100 + "a,b".split(',').count() as i64 * 1000 }
-pub const N: usize = 55;
+pub fn t56() -> i64 { use std::collections::BTreeMap; let m: BTreeMap<&str, &str> = BTreeMap::from([("state", "1"), ("name", "2"), ("shell", "3")]); let order: String = m.iter().map(|(_k, v)| *v).collect(); order.parse::<i64>().unwrap_or(-1) }
+pub fn t57() -> i64 { let mut v = vec![(1usize, 5usize), (1, 6), (2, 7), (2, 8), (1, 9)]; v.dedup_by(|a, b| a.0 == b.0); (v.len() * 100 + v[1].1 * 10 + v[2].1) as i64 }
+pub fn t58() -> i64 { let s = format!("{:?}", "a\"b\\c\n\u{301}\u{a0}é"); s.len() as i64 }
+pub fn t59() -> i64 { use std::collections::BTreeMap; let mut m: BTreeMap<String, String> = BTreeMap::new(); m.insert("b".into(), "1".into()); m.insert("a".into(), "2".into()); let r = m.remove("b"); let mut n = m.clone(); n.retain(|_k, v| v.len() > 1); (r.map_or(0, |v| v.len()) * 100 + m.len() * 10 + n.len()) as i64 + (m == n) as i64 * 1000 }
+pub fn t60() -> i64 { let b: &[u8] = b"ab\xe2\x82x\xff\xf0\x9f\x98"; let mut acc = 0i64; for c in b.utf8_chunks() { acc = acc * 100 + (c.valid().len() * 10 + c.invalid().len()) as i64; } acc }
+pub fn t61() -> i64 { format!("[{}]", -42i32).len() as i64 * 10 + format!("{}", -2147483647i32).len() as i64 }
+pub fn t62() -> i64 { let a: Option<String> = None; let b = Some("x".to_string()); let c = Some("y".to_string()); (a.cmp(&b) as i64 + 1) * 100 + (b.cmp(&c) as i64 + 1) * 10 + (c.cmp(&c) as i64 + 1) }
+pub const N: usize = 62;
